@@ -496,6 +496,8 @@ def main(argv):
         # ---- Verus units (parallel) + Kani groups
         verus_units = [u for u in P.get('verus', []) if tier == 'thorough' or u.get('tier', 'quick') == 'quick']
         kani_hs = [h for h in P.get('kani', []) if tier == 'thorough' or h.get('tier', 'quick') == 'quick']
+        if os.environ.get('VERIF_DEBUG_SKIP_KANI'):
+            kani_hs = []   # debugging aid only; never used by the registered commands
         if tier == 'thorough':
             # thorough replaces a quick harness by its thorough variant when `replaces` is given
             repl = set(h['replaces'] for h in kani_hs if h.get('replaces'))
